@@ -133,6 +133,18 @@ REGISTRY = {
         'assumptions': ['commands are handed to the driver through trigger (as the authority does)', 'time between un-waited events is far below the 2000 ms timeout'],
         'trusted': ['modelled, not verified: std::time::Instant as a monotone millisecond clock; (rpm as f32 / 10.0) as u8 as saturating integer division'],
     },
+    'C09': {
+        'rule': 'real Director (Service::wait_io_sub on a current-thread runtime; publish, run to quiescence, drain the command channel): every engine reading 0..65535 rpm (thorough; every 13th + boundaries quick) after each of 6 prior verdict states; rotation readings from sources {6A,6B,6C,6D,7A,00,FF} x roll/pitch on a 0.5 degree grid over (-89,89) never within 0.05 degree of a threshold x yaw zero/non-zero, each followed by another signal kind; '
+                'all histories of length <=3 over 12 signal classes; random histories up to length 100 (2k quick / 20k thorough); commands after every signal compared with the extracted model and with "full sequence iff pending" computed from the history alone; non-trivial = some signal processed while a condition is pending; distinct by case text',
+        'exhaustive': {'quick': False, 'thorough': False},
+        'level_text': 'Theorem C09 proves for EVERY signal history (all rpm, readings from every source with any angles, every other signal kind) that after each signal the director emits exactly the six-command emergency sequence, in order, iff the latest engine reading exceeds 2200 rpm or the latest rotation reading is an inclinometer reading over +45 degrees, and nothing otherwise (never a motion-change command); C09_tilt_emergency / C09_overspeed_emergency (iff) and C09_sequence support it. '
+                      'Thresholds, addresses and the ORDER of the two inclinometer branches are regenerated from director.rs on every run; the model reflects fix d670d71.',
+        'level_note': 'angles are exact integers (centi-degrees) in the model; the float pipeline degrees -> radians -> rotation matrix -> euler_angles() (nalgebra, libm) is environment, validated by the correspondence on a grid that avoids the thresholds by 0.05 degree; readings with |roll| or |pitch| >= 90 degrees are outside the explored domain (DESIGN section 7). Trusted: kernel, extraction, drv.ml, harness.',
+        'technique': 'Rocq proof (invariant linking the two verdict slots to the latest readings, by induction; iff-characterisation of the verdicts) + correspondence on the real Director',
+        'explanation': 'C09, C09_tilt_emergency, C09_overspeed_emergency, C09_sequence',
+        'assumptions': ['supervised operation mode (the shipped one, regenerated)', 'readings strictly inside (-90, 90) degrees'],
+        'trusted': ['modelled, not verified: nalgebra Rotation3::from_euler_angles/euler_angles, f32::to_radians, HashMap max over the two slots'],
+    },
     'C10': {
         'rule': 'real NetworkAuthority::{recv,on_tick} on the emulated bus (one instance, deterministic): all histories of length <=5 (quick) / <=6 (thorough) over {frame accepted from the unit, frame from elsewhere, cycle} x timeout classes {absent, never-expiring, already expired} x 4 unit kinds; random histories of 8..48 events over multi-unit configurations incl. both shipped driver lists and a list with an unknown entry (cycle counts crossing 10 and 20); '
                 'timed histories with a 150 ms timeout and real 250 ms silences (48 quick / 400 thorough); ModuleStatus objects published per cycle (name, state, error) and frames compared with the extracted authority model; the C10 predicate (truthful, on change + every tenth cycle, silent start, canonical names) evaluated on the real publications with independently tracked heard/time/previous-status; non-trivial = a status was published; distinct by case text',
